@@ -17,10 +17,10 @@ echo "== demo with the change ($flags)"
 g++ $flags demo.cpp -o demo_with 2>&1 | grep -E "error" | head -3
 ASAN_OPTIONS=detect_leaks=0 ./demo_with > demo_with.log 2>&1; echo "exit=$?"; tail -2 demo_with.log | cut -c1-200
 echo "== demo without the change"
-git stash push -q -- src
+git diff -- src > .seed_eval_patch.diff; git apply -R .seed_eval_patch.diff
 g++ $flags demo.cpp -o demo_without 2>&1 | grep -E "error" | head -3
 ASAN_OPTIONS=detect_leaks=0 ./demo_without > demo_without.log 2>&1; echo "exit=$?"; tail -2 demo_without.log | cut -c1-200
-git stash pop -q
+git apply .seed_eval_patch.diff; rm -f .seed_eval_patch.diff
 for c in $checks; do
   echo "== verif check $c against the changed tree"
   (cd /verif && VERIF_REPO=$dir python3 verif.py check $c 2>&1 | grep -E "^VIOLATION|signature|^C[0-9]+ quick|INTERNAL|KNOWN" | cut -c1-260 | head -12)
